@@ -61,6 +61,9 @@ def run(chk, rnd, thorough):
     r = chk.tlc_mc("Connection", "Connection.cfg", timeout=600)
     if not r["ok"]:
         raise vlib.Inconclusive("Connection.tla: counterexample:\n%s" % r.get("counterexample", "")[:2000])
+    r = chk.tlc_mc("Connection", "Connection_nourgency.cfg", timeout=600)      # negative control: without urgency TLC must refute the bound
+    if r["ok"]:
+        raise vlib.Inconclusive("Connection.tla: the negative control (operations that need not end in time) was not refuted")
     chk.build_vh()
     d = chk.sub("fc")
     ss = scripts(rnd, 600 if thorough else 60)
